@@ -150,7 +150,7 @@ def validate_traces(module, traces, cfg=None, timeout=900, chunk=4000, specdir=N
     """Batch trace validation (TraceRun.tla idiom).
 
     traces: list of {"h": header, "ev": [events]}.  Returns (accepted:set of indices,
-    rejects: {index: (event position (1-based), clause text)}, states, transitions).
+    rejects: {index: [(event position (1-based), clause-set text), ...]}, states, transitions).
     Every trace gets a verdict; a trace with no verdict is a machinery error."""
     accepted, rejects = set(), {}
     states = trans = 0
@@ -171,7 +171,7 @@ def validate_traces(module, traces, cfg=None, timeout=900, chunk=4000, specdir=N
             accepted.add(base + int(s) - 1)
         for s in r.tuples("REJ"):
             m = re.match(r"(\d+), (\d+), (.*)$", s)
-            rejects.setdefault(base + int(m.group(1)) - 1, (int(m.group(2)), m.group(3)))
+            rejects.setdefault(base + int(m.group(1)) - 1, []).append((int(m.group(2)), m.group(3)))
         os.remove(tf)
         for i in range(base, base + len(part)):
             if i not in accepted and i not in rejects:
